@@ -24,8 +24,9 @@ VT = _VT()
 
 def subharnesses(tier):
     subs = []
-    counts = (0, 1, 2, 3, 5)
-    currents = (0, 1, 2, 3, 4, 6)
+    counts = (0, 1, 2, 3, 5) if tier == 'quick' else (0, 1, 2, 3, 5, 8, 13)
+    currents = (0, 1, 2, 3, 4, 6) if tier == 'quick' else \
+        (0, 1, 2, 3, 4, 6, 9, 14)
     for c in counts:
         for cur in currents:
             for susp in ('never', 'sym'):
@@ -60,11 +61,18 @@ def subharnesses(tier):
     # process runs (real _run_sync with its watch callbacks), then the app
     # keeps losing instances: the creates of the following evaluations stay
     # within the token bucket of the NEW target
-    for n0, n1 in ((5, 1), (3, 1), (1, 3), (2, 2), (4, 2), (0, 2), (3, 0)):
+    for n0, n1 in (((5, 1), (3, 1), (1, 3), (2, 2), (4, 2), (0, 2), (3, 0))
+                   if tier == 'quick' else
+                   ((5, 1), (3, 1), (1, 3), (2, 2), (4, 2), (0, 2), (3, 0),
+                    (8, 1), (8, 3), (2, 8), (13, 5), (1, 1), (6, 0))):
         for cur0 in (0, n0):
             subs.append(('reconfig-%d-to-%d-cur%d' % (n0, n1, cur0),
                          {'kind': 'reconfig', 'n0': n0, 'n1': n1,
                           'cur0': cur0}))
+            if tier == 'thorough':
+                subs.append(('reconfig-%d-to-%d-cur%d-evals5' % (n0, n1, cur0),
+                             {'kind': 'reconfig', 'n0': n0, 'n1': n1,
+                              'cur0': cur0, 'evals': 5}))
     # scale-down of a monitor whose count is changed through the real
     # masterapi.update_appmonitor (count only, as the REST API sends it): the
     # policy configured earlier still decides which instances go
@@ -141,7 +149,7 @@ def harness_reconfig(S, spec):
     from treadmill import context
     from treadmill.sproc import appmonitor as am
     n0, n1 = spec['n0'], spec['n1']
-    EVALS = 3                       # evaluations after the re-configuration
+    EVALS = spec.get('evals', 3)    # evaluations after the re-configuration
     t = [S.int('t%d' % i, NOW0, NOW0 + 10 ** 6) for i in range(EVALS + 3)]
     for a, b in zip(t, t[1:]):
         S.require(S.z(a) <= S.z(b))
